@@ -192,7 +192,7 @@ impl PoolGen {
         }
     }
 
-    /// deterministic prefix: six pools sharing denoms, funded, so that every run covers both
+    /// deterministic prefix: seven pools sharing denoms, funded, so that every run covers both
     /// pool types, 2/3/4 assets and mixed decimals regardless of the seed.
     pub fn scripted_prefix(&mut self, w: &World) {
         let u0 = w.users[0].clone();
@@ -204,6 +204,9 @@ impl PoolGen {
         s.push(create_pool_op(w, &u1, &["uusdc", "uusdt", "udai"], PoolType::StableSwap { amp: 85 }, pool_fee(2, 10, 0, &[3, 2]), None));
         s.push(create_pool_op(w, &u0, &["uusdc", "uusdt", "uwbtc", "udai"], PoolType::StableSwap { amp: 10 }, pool_fee(0, 20, 10, &[]), Some("four")));
         s.push(create_pool_op(w, &u1, &["uusdc", "udai"], PoolType::StableSwap { amp: 2000 }, pool_fee(0, 0, 0, &[]), Some("z618")));
+        // a nearly worthless 18-decimals token against a precious 6-decimals one: the base-unit
+        // price lies below 1e-18
+        s.push(create_pool_op(w, &u0, &["ueth", "uusdt"], PoolType::ConstantProduct, pool_fee(0, 30, 0, &[]), Some("lop")));
         let t6 = 10u128.pow(6);
         let t8 = 10u128.pow(8);
         let t18 = 10u128.pow(18);
@@ -213,6 +216,7 @@ impl PoolGen {
         s.push(provide_op(&u1, "p.2", vec![coin(1_000_000 * t6, "uusdc"), coin(1_100_000 * t6, "uusdt"), coin(900_000 * t18, "udai")], None, None, None, None, None));
         s.push(provide_op(&u0, "o.four", vec![coin(500_000 * t6, "uusdc"), coin(500_000 * t6, "uusdt"), coin(400_000 * t8, "uwbtc"), coin(600_000 * t18, "udai")], None, None, None, None, None));
         s.push(provide_op(&u1, "o.z618", vec![coin(800_000 * t6, "uusdc"), coin(800_000 * t18, "udai")], None, None, None, None, None));
+        s.push(provide_op(&u0, "o.lop", vec![coin(10u128.pow(30), "ueth"), coin(20_000 * t6, "uusdt")], None, None, None, None, None));
         self.script = s.into();
     }
 
@@ -371,12 +375,14 @@ impl PoolGen {
         };
         // a route whose k-th hop does not start where the previous one ended
         let mut ops = ops;
-        if ops.len() >= 2 && self.rng.gen_range(0..20) == 0 {
+        if ops.len() >= 2 && self.rng.gen_range(0..12) == 0 {
             let k = self.rng.gen_range(1..ops.len());
             let SwapOperation::MantraSwap { token_in_denom, token_out_denom, pool_identifier } = ops[k].clone();
             if let Some(p) = obs.pools.get(&pool_identifier) {
-                if let Some(other) = p.info.asset_denoms.iter().find(|d| **d != token_in_denom && **d != token_out_denom).or_else(|| w.cfg.denoms.iter().map(|(d, _)| d).find(|d| **d != token_in_denom)) {
-                    ops[k] = SwapOperation::MantraSwap { token_in_denom: other.clone(), token_out_denom, pool_identifier };
+                match p.info.asset_denoms.iter().find(|d| **d != token_in_denom && **d != token_out_denom) {
+                    Some(other) => ops[k] = SwapOperation::MantraSwap { token_in_denom: other.clone(), token_out_denom, pool_identifier },
+                    // a two-asset pool: the hop runs the other way round
+                    None => ops[k] = SwapOperation::MantraSwap { token_in_denom: token_out_denom, token_out_denom: token_in_denom, pool_identifier },
                 }
             }
         }
